@@ -406,7 +406,7 @@ pub enum DrawRec {
     Draw { bound: i64, value: i64 },
 }
 
-fn conv_draws(v: Vec<DrawEvent>) -> Vec<DrawRec> {
+pub fn conv_draws(v: Vec<DrawEvent>) -> Vec<DrawRec> {
     v.into_iter()
         .map(|d| match d {
             DrawEvent::NewContext { seed } => DrawRec::NewContext(seed),
